@@ -371,10 +371,25 @@ pub fn to_record_buf(v: &Var) -> RecordBuf {
 const INT_EDGES: &[i32] = &[0, 1, -1, 127, 128, -120, -121, 32767, 32768, -32760, -32761, 2147483647, -2147483640, 255, 65535];
 const WORD: &[u8] = b"ABCDEFGHIJKLMNOPQRSTUVWXYZabcdefghijklmnopqrstuvwxyz0123456789_.-";
 
+/// 2-, 3- and 4-byte code points
+const NON_ASCII: &[char] = &['ï', 'é', 'ß', 'ñ', 'Å', 'λ', 'Ж', '中', '染', '€', '→', '‰', 'ツ', '😀', '𝛼', '🧬'];
+
+/// `lo..=hi` characters. One word in three mixes non-ASCII code points in (byte length != character count).
 fn word(rng: &mut Rng, lo: usize, hi: usize) -> String {
     let n = rng.urange(lo, hi);
+    let mixed = rng.chance(1, 3);
     // never starts with '.', so a one-character word is never the missing value
-    (0..n).map(|i| if i == 0 { *rng.pick(&WORD[..62]) as char } else { *rng.pick(WORD) as char }).collect()
+    (0..n)
+        .map(|i| {
+            if mixed && rng.chance(1, 4) {
+                *rng.pick(NON_ASCII)
+            } else if i == 0 {
+                *rng.pick(&WORD[..62]) as char
+            } else {
+                *rng.pick(WORD) as char
+            }
+        })
+        .collect()
 }
 
 fn int(rng: &mut Rng) -> i32 {
@@ -500,7 +515,7 @@ fn rand_info(rng: &mut Rng, n_alt: usize, long: bool) -> Vec<(String, Val)> {
             "XL" => Val::StrArr((0..rng.urange(1, 4)).map(|_| word(rng, 1, 8)).collect()),
             "XI" => Val::IntArr((0..rng.urange(1, 5)).map(|_| Some(int(rng))).collect()),
             "XF" => Val::FloatArr((0..rng.urange(1, 4)).map(|_| Some(flt(rng))).collect()),
-            "XC" => Val::Char(*rng.pick(&['a', 'Z', '7', '+', '#'])),
+            "XC" => Val::Char(*rng.pick(&['a', 'Z', '7', '+', '#', 'é', '中', '😀'])),
             "X2" => Val::IntArr(vec![Some(int(rng)), Some(int(rng))]),
             _ => unreachable!(),
         };
@@ -629,6 +644,7 @@ pub const DET_CLASSES: &[&str] = &[
     "multi-contig",
     "multi-sample",
     "multi-block",
+    "non-ascii-text",
     // minimal regression sets of defects that were repaired (the shapes are part of the random model again)
     "witness-gt-mixed-ploidy",
     "witness-gt-phased-missing-allele",
@@ -772,6 +788,46 @@ pub fn make_set(class: &str, seed: u64) -> VSet {
                 })
                 .collect();
             (header_text("VCFv4.3", &c, &s, true), c, s, recs)
+        }
+        // non-ASCII text everywhere a name or string can stand: sample names, a FILTER id, IDs, INFO String /
+        // String list / Character, FORMAT String with slot widths that differ between samples ("naïve" is the longest)
+        "non-ascii-text" => {
+            // contig names stay ASCII: the VCF writer rejects others ("invalid reference sequence name"; the specification
+            // restricts contig names to printable ASCII)
+            let c = vec![("chrA1".to_string(), 50_000usize), ("scaffold_2".to_string(), 90_000)];
+            let s: Vec<String> = vec!["naïve".into(), "S→2".into(), "😀3".into()];
+            let base = header_text("VCFv4.3", &c, &s, true);
+            let (head, chrom_line) = base.split_at(base.find("#CHROM").unwrap());
+            let t = format!("{head}##FILTER=<ID=fïltre→1,Description=\"non-ASCII filter id\">\n{chrom_line}");
+            let fixed: [[&str; 3]; 4] = [["naïve", "ab", "x"], ["a", "日本語テキスト", "bc"], ["😀😀", "q", "zzzz"], ["plain", "ascii", "only"]];
+            let mut recs: Vec<Var> = Vec::new();
+            for i in 0..16usize {
+                let mut r = rand_record(rng, &c, s.len(), true, false);
+                if !r.format.contains(&"XT".to_string()) {
+                    r.format.push("XT".into());
+                    for row in r.samples.iter_mut() {
+                        row.push(Some(Val::Str(word(rng, 1, 10))));
+                    }
+                }
+                let xt = r.format.iter().position(|k| k == "XT").unwrap();
+                if i < fixed.len() {
+                    for (row, w) in r.samples.iter_mut().zip(fixed[i]) {
+                        row[xt] = Some(Val::Str(w.to_string()));
+                    }
+                }
+                r.info.retain(|(k, _)| !matches!(k.as_str(), "XS" | "XC" | "XL"));
+                r.info.push(("XS".into(), Val::Str(format!("{}ï{}", word(rng, 1, 6), word(rng, 0, 6)))));
+                r.info.push(("XC".into(), Val::Char(*rng.pick(&['é', '中', '😀', 'Z']))));
+                r.info.push(("XL".into(), Val::StrArr(vec![word(rng, 1, 5), format!("€{}", word(rng, 1, 4)), "tail→".into()])));
+                r.ids = vec![format!("rs{i}"), format!("ïd_{}", word(rng, 1, 6))];
+                if i % 3 == 0 {
+                    r.filters = Some(vec!["fïltre→1".into()]);
+                } else if i % 3 == 1 {
+                    r.filters = Some(vec!["q10".into(), "fïltre→1".into()]);
+                }
+                recs.push(r);
+            }
+            (t, c, s, recs)
         }
         // ---- scale family ----------------------------------------------------------------------
         // a dictionary with more than 127 / 255 / 32767 entries: N extra FILTERs fx<k> and up to 300 extra INFO
